@@ -3,7 +3,7 @@
 From Coq Require Import List NArith Lia Bool ZifyN ZifyNat ZifyBool.
 From FS Require Import Sx Model.Path Model.Fs Model.RootPath Model.CopyFs Model.CopyFsSpec
   Proofs.Lex Proofs.PathP Proofs.FsP Proofs.RootPathStrP Proofs.FsCopyFrameP Proofs.FsCopyInvP
-  Proofs.FsCopySafeP.
+  Proofs.FsCopySafeP Proofs.FsCopyLinksP.
 Import ListNotations.
 Open Scope N_scope.
 Open Scope bool_scope.
@@ -222,15 +222,15 @@ Section Sys.
   Definition meta_post (f f' : fs) : Prop :=
     Ctx f' /\ (forall d, above d f f') /\ (forall j, dents f' j = dents f j) /\
     (forall j, is_dir f' j = is_dir f j) /\ (forall j, FsP.is_link f' j = FsP.is_link f j) /\
-    f_next f' = f_next f /\ (forall j, get f j <> None -> get f' j <> None).
+    f_next f' = f_next f /\ (forall j, get f j <> None -> get f' j <> None) /\ grows f f'.
 
   Lemma meta_post_refl f : Ctx f -> meta_post f f.
   Proof. intros C. split; [exact C|]. split; [intros d; apply above_refl|]. repeat split; auto. Qed.
 
   Lemma meta_post_trans f1 f2 f3 : meta_post f1 f2 -> meta_post f2 f3 -> meta_post f1 f3.
   Proof.
-    intros (C2 & A2 & D2 & I2 & L2 & N2 & G2) (C3 & A3 & D3 & I3 & L3 & N3 & G3).
-    split; auto. split; [|split; [|split; [|split; [|split]]]].
+    intros (C2 & A2 & D2 & I2 & L2 & N2 & G2 & W2) (C3 & A3 & D3 & I3 & L3 & N3 & G3 & W3).
+    split; auto. split; [|split; [|split; [|split; [|split; [|split; [|eapply grows_trans; eauto]]]]]].
     - intros d a p e q H1 H2. apply (chain_same f1 f3); auto.
       + intros j. rewrite D3, D2. reflexivity.
       + intros j Hj. rewrite I3, I2. exact Hj.
@@ -244,9 +244,85 @@ Section Sys.
   Lemma names_ss_meta f f' d x i : names_ss f d x i -> meta_post f f' -> names_ss f' d x i.
   Proof. intros [H1 H2] (_ & _ & D & _). split; auto. rewrite D. exact H1. Qed.
 
+  (* ---- what persists: [grows] for creations and links, [shrinks] for removals ---- *)
+  Lemma tgt_alloc f cs d x : Tgt f cs d x -> alloc_ok f.
+  Proof. intros T. apply (inv_fresh f0 dr f). eapply tgt_inv; eauto. Qed.
+
+  Lemma g_create f cs d x r isdir k mode : Tgt f cs d x -> resolve c f (tpath cs x) false = inl r -> leaf_kind k ->
+    grows f (fst (create_at f r isdir k mode)).
+  Proof.
+    intros T E Hl. destruct (tgt_resolve_nf f cs d x r T E) as (H1 & _).
+    apply grows_create_at; auto; [eapply tgt_alloc; eauto|rewrite H1; eapply tgt_dir; eauto].
+  Qed.
+
+  Lemma g_mkdir f cs d x mode f' res : Tgt f cs d x -> sys_mkdir c f (tpath cs x) mode = (f', res) -> grows f f'.
+  Proof.
+    intros T H. destruct (sys_mkdir_inv _ _ _ _ _ _ H) as [[-> _]|(r & E & Hn & -> & ->)]; [apply grows_refl|].
+    eapply g_create; eauto. reflexivity.
+  Qed.
+  Lemma g_mknod f cs d x typ mode rdev f' res : Tgt f cs d x -> sys_mknod c f (tpath cs x) typ mode rdev = (f', res) -> grows f f'.
+  Proof.
+    intros T H. destruct (sys_mknod_inv _ _ _ _ _ _ _ _ H) as [[-> _]|(r & a & b0 & E & Hn & -> & ->)]; [apply grows_refl|].
+    eapply g_create; eauto. exact I.
+  Qed.
+  Lemma g_mknod_reg f cs d x mode f' res : Tgt f cs d x -> sys_mknod_reg c f (tpath cs x) mode = (f', res) -> grows f f'.
+  Proof.
+    intros T H. destruct (sys_mknod_reg_inv _ _ _ _ _ _ H) as [[-> _]|(r & E & Hn & -> & ->)]; [apply grows_refl|].
+    eapply g_create; eauto. exact I.
+  Qed.
+  Lemma g_symlink f cs d x t f' res : Tgt f cs d x -> sys_symlink c f t (tpath cs x) = (f', res) -> grows f f'.
+  Proof.
+    intros T H. destruct (sys_symlink_inv _ _ _ _ _ _ H) as [[-> _]|(r & E & Hn & -> & ->)]; [apply grows_refl|].
+    eapply g_create; eauto. exact I.
+  Qed.
+  Lemma g_link f cs d x first f' res : Tgt f cs d x -> sys_link c f first (tpath cs x) = (f', res) -> grows f f'.
+  Proof.
+    intros T H. destruct (sys_link_inv _ _ _ _ _ _ H) as [[-> _]|(i & r & E1 & E & Hn & Hd & -> & ->)]; [apply grows_refl|].
+    destruct (tgt_resolve_nf f cs d x r T E) as (H1 & _). apply grows_add_ent. rewrite H1. eapply tgt_dir; eauto.
+  Qed.
+  Lemma g_open_creat f cs d x mode f' res : Tgt f cs d x -> absent f d x ->
+    sys_open_wronly c f (tpath cs x) true mode = (f', res) -> grows f f'.
+  Proof.
+    intros T Hab H.
+    destruct (sys_open_wronly_inv _ _ _ _ _ _ _ H) as [[-> _]|[(r & i & dd & E & Hi & Hg & _ & -> & ->)|(r & E & Hn & _ & -> & ->)]];
+      try apply grows_refl.
+    destruct (resolve_tpath c f0 dr dcs f cs d x true r) as [(K1 & _)|(_ & i & Hb & Hl)]; try apply T; auto.
+    - apply grows_create_at; [eapply tgt_alloc; eauto|rewrite K1; eapply tgt_dir; eauto|exact I].
+    - exfalso. unfold absent in Hab. rewrite Hb in Hab. unfold FsP.is_link in Hl. rewrite Hab in Hl. discriminate.
+  Qed.
+
+  Lemma s_del f cs d x : Tgt f cs d x -> shrinks f (del_ent f d x) d x.
+  Proof.
+    intros T. apply shrinks_del_ent. apply (inv_nodup f0 dr f); [eapply tgt_inv; eauto|eapply tgt_SS; eauto].
+  Qed.
+  Lemma s_unlink f cs d x f' res : Tgt f cs d x -> sys_unlink c f (tpath cs x) = (f', res) -> shrinks f f' d x.
+  Proof.
+    intros T H. destruct (sys_unlink_inv _ _ _ _ _ H) as [[-> _]|(r & i & E & Hi & Hd & -> & ->)];
+      [apply grows_shrinks, grows_refl|].
+    destruct (tgt_resolve_nf f cs d x r T E) as (H1 & H2 & _). rewrite H1, H2. eapply s_del; eauto.
+  Qed.
+  Lemma s_rmdir f cs d x f' res : Tgt f cs d x -> sys_rmdir c f (tpath cs x) = (f', res) -> shrinks f f' d x.
+  Proof.
+    intros T H. destruct (sys_rmdir_inv _ _ _ _ _ H) as [[-> _]|(r & i & E & Hi & Hd & -> & ->)];
+      [apply grows_shrinks, grows_refl|].
+    destruct (tgt_resolve_nf f cs d x r T E) as (H1 & H2 & _). rewrite H1, H2. eapply s_del; eauto.
+  Qed.
+  Lemma s_remove_all f cs d x f' res : Tgt f cs d x -> sys_remove_all c f (tpath cs x) = (f', res) -> shrinks f f' d x.
+  Proof.
+    intros T H. destruct (sys_remove_all_inv _ _ _ _ _ H) as [->|(r & i & E & Hi & Hd & -> & ->)];
+      [apply grows_shrinks, grows_refl|].
+    destruct (tgt_resolve_nf f cs d x r T E) as (H1 & H2 & _). rewrite H1, H2. eapply s_del; eauto.
+  Qed.
+
+  Lemma t_put f i n n' : Ctx f -> SS i -> get f i = Some n -> same_shape n n' -> meta_post f (put f i n').
+  Proof.
+    intros C Hs Hg Hsh. destruct (eff_put c f0 dr dcs f i n n' C Hs Hg Hsh) as (H1 & H2 & H3 & H4 & H5 & H6 & H7).
+    repeat (split; [assumption|]). eapply grows_put; eauto.
+  Qed.
+
   Lemma t_put_meta f i n m : Ctx f -> SS i -> get f i = Some n -> meta_post f (put f i (set_meta n m)).
   Proof.
-    intros C Hs Hg. apply (eff_put c f0 dr dcs f i n (set_meta n m)); auto.
+    intros C Hs Hg. apply (t_put f i n); auto.
     unfold same_shape. destruct n as [[p es|x|t|ty rd] m0]; simpl; auto.
   Qed.
 
@@ -304,7 +380,7 @@ Section Sys.
   Lemma t_fd_truncate f i : Ctx f -> b <= i -> meta_post f (fd_truncate f i).
   Proof.
     intros C Hi. unfold fd_truncate. destruct (get f i) as [[[p es|x|t|ty rd] m]|] eqn:E; try (apply meta_post_refl; auto).
-    eapply (eff_put c f0 dr dcs f i); [exact C|right; auto|exact E|exact I].
+    eapply (t_put f i); [exact C|right; auto|exact E|exact I].
   Qed.
 
   Lemma t_fd_pwrite f i off data f' res : Ctx f -> b <= i -> fd_pwrite f i off data = (f', res) -> meta_post f f'.
@@ -312,7 +388,7 @@ Section Sys.
     intros C Hi H. unfold fd_pwrite in H. destruct (get f i) as [[[p es|x|t|ty rd] m]|] eqn:E;
       try (inversion H; subst; apply meta_post_refl; auto).
     destruct data; inversion H; subst; [apply meta_post_refl; auto|].
-    eapply (eff_put c f0 dr dcs f i); [exact C|right; auto|exact E|exact I].
+    eapply (t_put f i); [exact C|right; auto|exact E|exact I].
   Qed.
 
   (* ---- link(2): the new name is the target; the old path may lead anywhere ---- *)
@@ -327,6 +403,8 @@ Section Sys.
       rewrite H1, H2.
       destruct (eff_add c f0 dr dcs f cs d x i) as (C' & A & Hb & _); try apply T; auto.
       { eapply tgt_okn; eauto. }
+      { destruct (resolve_ino_src _ _ _ _ _ E1) as [Hx|(j & nme & Hx)]; [congruence|].
+        eapply (inv_target f0 dr f); eauto. eapply tgt_inv; eauto. }
       split; auto. split; auto. right. split; auto. exists i. auto.
   Qed.
 End Sys.
